@@ -2,8 +2,11 @@
 
 While active, builtins.open / os.replace / os.remove are proxied; every operation on a path under
 `root` (open, each write() call, flush, close, replace, remove) gets an index in one stream.
-A fault plan {"k": index, "kind": "oserror"|"kbi"|"exit"} fires *before* the k-th operation
+A fault plan {"k": index, "kind": "oserror"|"perm"|"kbi"|"exit"} fires *before* the k-th operation
 takes effect (a rename that takes effect and then reports failure is not a realistic fault).
+"oserror" is a one-shot EIO; "perm" is a persistent condition: PermissionError(EACCES) at operation k and
+at every later operation of the same kind (for a write also at flush/close), as a read-only directory or a
+full disk would produce.
 """
 import builtins
 import os
@@ -62,6 +65,7 @@ class Injector:
         self.count = 0
         self.log = []
         self.fired = False
+        self.sticky_kinds = ()
 
     def mine(self, path):
         try:
@@ -75,10 +79,15 @@ class Injector:
         self.count += 1
         self.log.append((k, kind, os.path.basename(os.fspath(path))))
         p = self.plan
+        if self.fired and kind in self.sticky_kinds:
+            raise PermissionError(13, f"injected persistent permission error at file op {k} ({kind})")
         if p is not None and p["k"] == k and not self.fired:
             self.fired = True
             if p["kind"] == "oserror":
                 raise OSError(5, f"injected I/O error at file op {k} ({kind})")
+            if p["kind"] == "perm":
+                self.sticky_kinds = ("write", "flush", "close") if kind in ("write", "flush", "close") else (kind,)
+                raise PermissionError(13, f"injected persistent permission error at file op {k} ({kind})")
             if p["kind"] == "kbi":
                 raise KeyboardInterrupt(f"injected interrupt at file op {k} ({kind})")
             if p["kind"] == "exit":
